@@ -419,6 +419,16 @@ static void value_bursts(const BurstCase &c, pbt::Ctx &ctx)
     const long long k = tab[(size_t)(((bi % (int)tab.size()) + (int)tab.size()) % (int)tab.size())];
     if (k > budget)
       continue;
+    // the very long bursts cost minutes: a few per process are enough (a replay is a process of its own)
+    static int hugeRuns = 0, largeRuns = 0;
+    if (k >= (1ll << 32) && hugeRuns++ >= 1) {
+      ctx.label("2^32 burst skipped (once per process)");
+      continue;
+    }
+    if (k >= (1ll << 24) && k < (1ll << 32) && largeRuns++ >= 6) {
+      ctx.label("2^24 burst skipped (six per process)");
+      continue;
+    }
     budget -= k;
     // the payload is only built for the last few assignments of a long burst (the others assign a shared value)
     const T filler = Tag<T>::make(n, 0);
